@@ -49,7 +49,8 @@ def register_lexer(reg):
     reg.cls('Scanner', target='lark.lexer:Scanner', fields={'allowed_types': 'set[str]'})
     reg.cls('BasicLexer', target='lark.lexer:BasicLexer',
             fields={'callback': 'dict[str,any]', 'ignore_types': 'set[str]', 'newline_types': 'set[str]',
-                    'terminals_by_name': 'any', '_scanner': 'opt[Scanner]'})
+                    'terminals_by_name': 'any', '_scanner': 'opt[Scanner]', 'terminals': 'list[TerminalDef]'})
+    reg.cls('TerminalDef', consts={'name': 'str'})
     for e, b in (('LarkError', ['Exception']), ('LexError', ['LarkError']), ('UnexpectedInput', ['LarkError']),
                  ('UnexpectedCharacters', ['LexError', 'UnexpectedInput'])):
         reg.cls(e, exception=True, bases=b, fields={'pos_in_stream': 'int', 'line': 'int', 'column': 'int', 'allowed': 'set[str]'} if e == 'UnexpectedCharacters' else None)
@@ -106,7 +107,11 @@ def register_lexer(reg):
                  raises={'EOFError': ['%s.char_pos == %s.text.end' % (C, S)] + textmodel.INV(C, TXT),
                          # raised at the first offset where no terminal matches, with exact coordinates
                          'UnexpectedCharacters': ['exc.pos_in_stream == %s.char_pos' % C, '%s.char_pos < %s.text.end' % (C, S),
-                                                  'exc.line == %s' % LINE(C + '.char_pos'), 'exc.column == %s' % COL(C + '.char_pos')],
+                                                  'exc.line == %s' % LINE(C + '.char_pos'), 'exc.column == %s' % COL(C + '.char_pos'),
+                                                  # C08: what was allowed here covers EVERY non-ignored terminal of this lexer (keywords folded into a
+                                                  # regexp terminal included), and no ignored one
+                                                  'all(implies(self.terminals[i].name not in self.ignore_types, self.terminals[i].name in exc.allowed) for i in range(0, len(self.terminals)))',
+                                                  'all(implies(k in exc.allowed and k != "<END-OF-FILE>", k not in self.ignore_types) for k in STR)'],
                          'LexError': []},
                  loops={0: dict(inv=textmodel.INV(C, TXT) + WIN + [
                      'lex_state.text is old(lex_state.text)', 'lex_state.line_ctr is old(lex_state.line_ctr)', 'line_ctr is lex_state.line_ctr',
